@@ -148,6 +148,7 @@ class Verifier(Engine):
         """every heap write on this path is to a fresh object or allowed by `modifies`"""
         whole = set(); locs = {}
         entry_env = fr.entry_env
+        if c.modifies and any(m.strip() == 'anything' for m in c.modifies): return
         for m in (c.modifies or []):
             e = m.strip()
             if e == 'nothing': continue
@@ -183,11 +184,14 @@ class Verifier(Engine):
         """discharge all obligations; forked workers share the z3 terms by copy-on-write"""
         global _WORK
         t0 = time.time()
+        self.deadline = t0 + self.opts.get('budget_s', 150)
         jobs = jobs or int(os.environ.get('GOCV_JOBS', '16'))
         n = len(self.obls)
         if jobs <= 1 or n < 8:
             failed = set()
             for o in self.obls:
+                if time.time() > self.deadline:
+                    o.result = 'unknown'; o.backend = 'not attempted: per-function time budget exhausted'; continue
                 if o.name in failed and o.expect == 'unsat':
                     o.result = 'skipped'; o.backend = 'skipped (an earlier path instance of this obligation already failed)'
                     continue
@@ -238,6 +242,12 @@ class Verifier(Engine):
         return res
 
     def query(self, o, goals, timeout_ms, seed, race):
+        if len(goals) == 1 and z3.is_false(goals[0]) and o.expect == 'unsat':
+            # literally false goal (e.g. a write outside `modifies`): refuted as soon as the path is feasible
+            s0 = z3.Solver(); s0.set('timeout', 1500)
+            for f in o.pc:
+                if not self.has_quant(f): s0.add(f)
+            if s0.check() == z3.sat: return 'sat', 'z3-5.1.0(api,qf)', None
         s = z3.Solver()
         s.set('timeout', timeout_ms)
         s.set('smt.auto_config', False)
@@ -306,6 +316,8 @@ def _solve_group(idxs):
     """obligations sharing one path condition: one incremental solver, fresh-solver fallback when undecided"""
     v, timeout_ms, seed, race = _WORK
     out = []
+    if time.time() > v.deadline:
+        return [(i, 'unknown', 0.0, 'not attempted: per-function time budget exhausted', None) for i in idxs]
     obs = [v.obls[i] for i in idxs]
     inc = None
     if len(obs) > 2:
@@ -322,7 +334,10 @@ def _solve_group(idxs):
             if r == z3.unsat:
                 o.result = 'unsat'; o.backend = 'z3-5.1.0(api,incremental)'; o.time = time.time() - t; o.model = None; done = True
         if not done:
-            v.solve(o, timeout_ms, seed, race)
+            if time.time() > v.deadline:
+                o.result, o.time, o.backend, o.model = 'unknown', 0.0, 'not attempted: per-function time budget exhausted', None
+            else:
+                v.solve(o, timeout_ms, seed, race)
         out.append((i, o.result, o.time, o.backend, o.model))
     return out
 
